@@ -1,7 +1,17 @@
 """C17 - the tdda command line gives the same constraints and verdicts as the library."""
+import ast
+
 from .. import ief, triage
+from ..flow import GuardMap, block_exits
+from ..model import AnalysisError, norm
+from .common import names_in, _exclusive
 
 ROOTS = ['PandasDiscoverer.discover', 'PandasVerifier.verify', 'PandasDetector.detect']
+CMDS = {
+    'discover': ('discover_flags', 'pd_discover_params', 'discover_df_from_file', 'discover_df', 'PandasDiscoverer.discover'),
+    'verify': ('verify_flags', 'pd_verify_params', 'verify_df_from_file', 'verify_df', 'PandasVerifier.verify'),
+    'detect': ('detect_flags', 'pd_detect_params', 'detect_df_from_file', 'detect_df', 'PandasDetector.detect'),
+}
 
 
 def check(run):
@@ -9,3 +19,147 @@ def check(run):
     roots = [p.fn(r) for r in ROOTS]
     ief.run_ief(run, 'C17', roots, triage=triage.IEF)
     run.floor('C17-IEF', run.units['ief_functions_checked'], 180)
+    flags(run, p)
+    sameapi(run, p)
+    exits(run, p)
+    defuse(run, p)
+    rownum(run, p)
+    from .c01 import datelang
+    datelang(run, p)
+    run.rules['C17-DATELANG'] = run.rules.pop('C01-DATELANG') + ' (the command line always goes through a .tdda file)'
+    for o in run.obs:
+        if o.rule == 'C01-DATELANG':
+            o.rule = 'C17-DATELANG'
+    run.floors = [(('C17-DATELANG' if r == 'C01-DATELANG' else r), c, m) for r, c, m in run.floors]
+
+
+def param_keys(f):
+    out = []
+    for x in ast.walk(f.node):
+        if isinstance(x, ast.Assign):
+            for t in x.targets:
+                if isinstance(t, ast.Subscript) and norm(t.value) == 'params' and isinstance(t.slice, ast.Constant):
+                    out.append((t.slice.value, x))
+        if isinstance(x, ast.Call) and norm(x.func) == 'params.update' and x.args and isinstance(x.args[0], ast.Dict):
+            for k in x.args[0].keys:
+                if isinstance(k, ast.Constant):
+                    out.append((k.value, x))
+    return out
+
+
+def named(f):
+    return set(f.posparams) | set(f.kwonly)
+
+
+def flags(run, p):
+    run.rule('C17-FLAGS', 'every keyword the command line stores for the library call is bound by a named parameter somewhere on its '
+                          'forwarding chain (front end -> *_df_from_file -> *_df -> Verification / record writer); a key that only a bare '
+                          '**kwargs absorbs would be dropped silently')
+    ver = p.method('Verification', '__init__')
+    wr = p.method('PandasConstraintDetector', 'write_detected_records')
+    n = 0
+    for cmd, (fl, pp, ff, lib, fe) in sorted(CMDS.items()):
+        chain = named(p.fn(ff)) | named(p.fn(lib))
+        if cmd != 'discover':
+            chain |= named(ver) | {x[len('detect_'):] for x in named(wr) if x.startswith('detect_')} | named(wr)
+        for fn in (p.fn('tdda.constraints.flags.' + fl), p.fn(pp)):
+            for key, node in param_keys(fn):
+                n += 1
+                run.ob('C17-FLAGS', '%s:%s' % (cmd, key), key in chain,
+                       'tdda %s stores %r, which %s' % (cmd, key, 'is a named parameter on the chain' if key in chain else
+                                                        'no function on the forwarding chain names: it is silently dropped'), fn=fn, node=node)
+    run.floor('C17-FLAGS', n, 25)
+
+
+def sameapi(run, p):
+    run.rule('C17-SAMEAPI', 'each front end loads the file with load_df and calls the library function of the same name; the front-end '
+                            'modules construct no verifier or discoverer of their own')
+    for cmd, (fl, pp, ff, lib, fe) in sorted(CMDS.items()):
+        f = p.fn(ff)
+        called = {getattr(x.func, 'id', None) for x in ast.walk(f.node) if isinstance(x, ast.Call)}
+        femethod = p.method(*fe.split('.'))
+        calls_ff = any(isinstance(x, ast.Call) and getattr(x.func, 'id', '') == ff for x in ast.walk(femethod.node))
+        run.ob('C17-SAMEAPI', cmd, {'load_df', lib} <= called and calls_ff,
+               '%s -> %s -> load_df + %s: %s' % (fe, ff, lib, sorted(c for c in called if c in ('load_df', lib))), fn=f)
+        own = [norm(x.func) for g in p.funcs.values() if g.mod is f.mod for x in ast.walk(g.node)
+               if isinstance(x, ast.Call) and getattr(x.func, 'id', '') in ('PandasConstraintVerifier', 'PandasConstraintDiscoverer', 'verify', 'detect')]
+        run.ob('C17-SAMEAPI', cmd + ':no-second-implementation', not own, 'front-end module %s constructs %s' % (f.mod.name, own or 'nothing of its own'),
+               fn=f, nontrivial=False)
+    run.floor('C17-SAMEAPI', 6, 6)
+
+
+def exits(run, p):
+    run.rule('C17-EXIT', 'unknown arguments and contradictory options end in sys.exit with a non-zero status inside the flag parsers; in every '
+                         'front end the missing-input test exits non-zero before the file is loaded or anything is written')
+    n = 0
+    for cmd, (fl, pp, ff, lib, fe) in sorted(CMDS.items()):
+        f = p.fn('tdda.constraints.flags.' + fl)
+        for s in ast.walk(f.node):
+            if isinstance(s, ast.If) and ('more' in names_in(s.test) or
+                                          (isinstance(s.test, ast.BoolOp) and isinstance(s.test.op, ast.And) and 'flags' in ast.unparse(s.test) and 'no_' in ast.unparse(s.test))):
+                n += 1
+                last = s.body[-1]
+                ok = isinstance(last, ast.Expr) and isinstance(last.value, ast.Call) and norm(last.value.func) == 'sys.exit' and last.value.args \
+                    and isinstance(last.value.args[0], ast.Constant) and last.value.args[0].value not in (0, None)
+                run.ob('C17-EXIT', '%s::%s::%s' % (f.rel, f.short, norm(s.test)[:50]), ok,
+                       '`if %s` ends with %s' % (norm(s.test)[:60], norm(last)[:30]), fn=f, node=s)
+        m = p.method(*fe.split('.'))
+        body = m.node.body
+        idx_call = next((i for i, s in enumerate(body) if any(isinstance(x, ast.Call) and getattr(x.func, 'id', '') == ff for x in ast.walk(s))), None)
+        idx_test = next((i for i, s in enumerate(body) if isinstance(s, ast.If) and 'isfile' in ast.unparse(s.test)), None)
+        ok = idx_call is not None and idx_test is not None and idx_test < idx_call
+        if ok:
+            s = body[idx_test]
+            last = s.body[-1]
+            ok = isinstance(last, ast.Expr) and isinstance(last.value, ast.Call) and norm(last.value.func) == 'sys.exit' and last.value.args \
+                and isinstance(last.value.args[0], ast.Constant) and last.value.args[0].value not in (0, None)
+        n += 1
+        run.ob('C17-EXIT', '%s::%s::missing-input' % (m.rel, m.short), ok, '%s tests the input file and exits non-zero before calling %s' % (m.short, ff), fn=m)
+    run.floor('C17-EXIT', n, 8)
+
+
+def defuse(run, p):
+    run.rule('C17-DEFUSE', 'in the load/save functions a value obtained by a lookup call is actually used, not merely tested: a definition '
+                           'whose only uses are branch conditions means something else was used in its place')
+    n = 0
+    for name in ('file_format', 'load_df', 'save_df'):
+        f = p.fn('tdda.constraints.pd.constraints.' + name)
+        tests = set()
+        for x in ast.walk(f.node):
+            if isinstance(x, (ast.If, ast.While, ast.IfExp)):
+                for y in ast.walk(x.test):
+                    tests.add(id(y))
+        for s in p.own_nodes(f):
+            if isinstance(s, ast.Assign) and len(s.targets) == 1 and isinstance(s.targets[0], ast.Name) and isinstance(s.value, ast.Call):
+                nm = s.targets[0].id
+                gm = GuardMap(f.node)
+                dch = gm.chain(s) or ()
+                uses = [y for y in ast.walk(f.node) if isinstance(y, ast.Name) and y.id == nm and isinstance(y.ctx, ast.Load)
+                        and y.lineno >= s.lineno and not _exclusive(dch, gm.chain(y) or ())]
+                if not uses:
+                    continue
+                n += 1
+                only_tests = all(id(y) in tests for y in uses)
+                run.ob('C17-DEFUSE', '%s::%s::%s' % (f.rel, f.short, nm), not only_tests,
+                       '%s = %s is %s' % (nm, norm(s.value)[:40], 'used' if not only_tests else 'only tested, never used: the value it stands for is taken from elsewhere'),
+                       fn=f, node=s)
+    run.floor('C17-DEFUSE', n, 5)
+
+
+def rownum(run, p):
+    run.rule('C17-ROWNUM', 'in the detection writer rows are numbered before failing records are filtered out: the RowNumber column counts '
+                           'positions in the input, so no row filter precedes the numbering')
+    f = p.method('PandasConstraintDetector', 'write_detected_records')
+    nums = [x for x in ast.walk(f.node) if isinstance(x, ast.Call) and norm(x.func).endswith('RangeIndex')]
+    filters = []
+    for s in ast.walk(f.node):
+        if isinstance(s, ast.Assign) and isinstance(s.value, ast.Subscript) and isinstance(s.value.slice, ast.Compare) \
+                and 'nfailname' in names_in(s.value.slice):
+            filters.append(s)
+    if not nums or not filters:
+        raise AnalysisError('write_detected_records: row numbering or row filter not found')
+    first_filter = min(s.lineno for s in filters)
+    ok = all(x.lineno < first_filter for x in nums)
+    run.ob('C17-ROWNUM', '%s::%s' % (f.rel, f.short), ok,
+           'rows are numbered at line %s, the first row filter is at line %d' % ([x.lineno for x in nums], first_filter), fn=f)
+    run.floor('C17-ROWNUM', 1, 1)
